@@ -708,15 +708,13 @@ def rule_r6(ctx) -> RuleResult:
 def rule_r7(ctx) -> RuleResult:
     rr = RuleResult("C09.R7", "the host module cache is not writable from the module environment", min_instances=1)
     p1 = ctx.lua.file("_sandbox_phase1.lua")
-    rs = p1.func_named("_lua_reset_env")
+    from . import c06
+    rs, env_assigns = c06._env_assignments(p1)
     exposed = {}
-    for n in L.walk(rs):
-        if n.kind == "assign":
-            for t, v in zip(n.targets, n.exprs):
-                if t.kind == "index" and t.obj.kind == "name" and t.obj.id == "env":
-                    o = L.origin_of(p1, v)
-                    if o.kind == "function":
-                        exposed[L.const_string(t.key)] = o.node
+    for key, v, node in env_assigns:
+        o = L.origin_of(p1, v)
+        if o.kind == "function":
+            exposed[key] = o.node
     n_checked = 0
     for key, fn in sorted(exposed.items(), key=lambda x: str(x[0])):
         n_checked += 1
